@@ -464,6 +464,16 @@ class Summariser:
         return tt, False
 
     @staticmethod
+    def _member_decided(ct, cf, env):
+        """`k in D` asked inside a loop over D (or its keys) that does not take elements out of D: True / False / None."""
+        facts = env.get("__member__") or ()
+        if len(ct) == 1 and ct[0] in facts:
+            return True
+        if len(cf) == 1 and cf[0] in facts:
+            return False
+        return None
+
+    @staticmethod
     def _decided(ct, cf, facts):
         """True / False when the facts decide the condition, None otherwise."""
         if all(a in facts for a in ct) or any((t, not p) in facts for t, p in cf) and len(cf) == 1:
@@ -905,6 +915,9 @@ class Summariser:
             if isinstance(st, ast.If):
                 self.record_calls(st.test, state)
                 ct, cf, _ = self.cond(st.test, state.env)
+                known = self._member_decided(ct, cf, state.env)
+                if known is not None:  # `k in D` inside `for k in D`: one arm only
+                    return self.block(list(st.body if known else st.orelse) + list(stmts[i + 1:]), state)
                 tt = self.block(st.body, state.fork())
                 ft = self.block(st.orelse, state.fork()) if st.orelse else Leaf(state.fork())
                 rest = stmts[i + 1:]
@@ -1242,6 +1255,10 @@ class Summariser:
                         # append(A if c else B) is `if c: append(A) else: append(B)`
                         ie = c.args[0]
                         ct, cf, _ = self.cond(ie.test, env)
+                        known = self._member_decided(ct, cf, env)
+                        if known is not None:
+                            env[f.value.id] = Seq(seq.kind, seq.parts + (("e", text(self.ev(ie.body if known else ie.orelse, env))),))
+                            return state
                         part = self.mk_if(ct, cf, (("e", text(self.ev(ie.body, env))),), (("e", text(self.ev(ie.orelse, env))),), boolean_parts=True)
                         env[f.value.id] = Seq(seq.kind, seq.parts + (part,))
                         return state
@@ -1432,6 +1449,9 @@ class Summariser:
                         raise Unsupported("items() loop target")
                 elif isinstance(st.target, ast.Name):
                     bind[st.target.id] = elem
+                    removes = any((isinstance(n, ast.Delete) or (isinstance(n, ast.Call) and isinstance(n.func, ast.Attribute) and n.func.attr in ("pop", "popitem", "clear", "remove", "discard"))) and base in norm(n) for s_ in st.body for n in ast.walk(s_))
+                    if view in (None, "keys") and isinstance(elem, Term) and not removes:
+                        bind["__member__"] = frozenset(env.get("__member__") or ()) | {(f"{elem.text} in {base}", True)}
                 elif isinstance(st.target, ast.Tuple) and all(isinstance(e, ast.Name) for e in st.target.elts):
                     for j, e in enumerate(st.target.elts):
                         bind[e.id] = Term(f"{elem.text}[{j}]")
@@ -1652,6 +1672,9 @@ class Summariser:
             return self.comp(node, env)
         if isinstance(node, ast.IfExp):
             ct, cf, _ = self.cond(node.test, env)
+            known = self._member_decided(ct, cf, env)
+            if known is not None:
+                return self.ev(node.body if known else node.orelse, env)
             a, b = self.ev(node.body, env), self.ev(node.orelse, env)
             if (isinstance(a, Seq) or isinstance(b, Seq)) and _as_seq(a) is not None and _as_seq(b) is not None and _as_seq(a).kind == _as_seq(b).kind:
                 a, b = _as_seq(a), _as_seq(b)
